@@ -156,6 +156,7 @@ fn hash_of<T: Hash>(t: &T) -> u64 {
 // ---------------------------------------------------------------------------------------
 #[derive(Default, Debug, Clone)]
 pub struct SubStats {
+    pub cases: u64,
     pub name: String,
     pub kind: &'static str,
     pub evaluations: u64,
@@ -172,6 +173,7 @@ pub struct SubStats {
 }
 
 struct Acc {
+    cases: u64,
     evaluations: u64,
     nontrivial: u64,
     distinct: HashSet<u64>,
@@ -184,6 +186,7 @@ struct Acc {
 impl Acc {
     fn new() -> Self {
         Acc {
+            cases: 0,
             evaluations: 0,
             nontrivial: 0,
             distinct: HashSet::new(),
@@ -333,6 +336,7 @@ where
                         let r = absorb(env, no_panic(|| (self.eval)(&case, &mut cx)));
                         if counting {
                             let mut a = accs[w].lock().unwrap();
+                            a.cases += 1;
                             a.evaluations += 1 + cx.extra_evals;
                             for l in &cx.labels {
                                 *a.labels.entry(l).or_default() += 1;
@@ -389,6 +393,7 @@ where
         let mut distinct: HashSet<u64> = HashSet::new();
         for a in accs {
             let a = a.into_inner().unwrap();
+            st.cases += a.cases;
             st.evaluations += a.evaluations;
             st.nontrivial += a.nontrivial;
             distinct.extend(a.distinct);
@@ -472,6 +477,7 @@ where
                         let mut cx = Cx::default();
                         cx.want_note = a.samples.len() < 2 && a.evaluations >= a.next_sample_at;
                         let r = absorb(env, no_panic(|| (self.eval)(case, &mut cx)));
+                        a.cases += 1;
                         a.evaluations += 1;
                         for l in &cx.labels {
                             *a.labels.entry(l).or_default() += 1;
@@ -521,6 +527,7 @@ where
         };
         for a in accs {
             let a = a.into_inner().unwrap();
+            st.cases += a.cases;
             st.evaluations += a.evaluations;
             st.nontrivial += a.nontrivial;
             st.distinct_nontrivial += a.distinct_counter;
@@ -703,7 +710,7 @@ pub fn run_property(p: &Property, tier: Tier, seed: u64, root: &std::path::Path,
             known_seen.entry(k.clone()).or_insert((0, what.clone())).0 += n;
         }
         if st.violations.is_empty() && st.evaluations > 0 {
-            let frac = st.nontrivial as f64 / st.evaluations as f64;
+            let frac = st.nontrivial as f64 / st.cases.max(1) as f64;
             if frac < st.floor {
                 infra.push(format!(
                     "sub-check {} is vacuous: non-trivial fraction {:.3} < floor {:.3}",
@@ -749,7 +756,7 @@ pub fn run_property(p: &Property, tier: Tier, seed: u64, root: &std::path::Path,
         .iter()
         .map(|s| {
             json!({
-                "name": s.name, "kind": s.kind, "evaluations": s.evaluations,
+                "name": s.name, "kind": s.kind, "cases": s.cases, "evaluations": s.evaluations,
                 "nontrivial": s.nontrivial, "distinct_nontrivial": s.distinct_nontrivial,
                 "labels": s.labels, "exhaustive": s.exhaustive, "universe": s.universe,
                 "excluded_known": s.known.iter().map(|(k,v)| (k.clone(), json!(v.0))).collect::<serde_json::Map<_,_>>(),
